@@ -43,6 +43,11 @@ pub enum Op {
     Cancel(u16),
     /// C12: a helper thread waits for the k-th task's result
     Wait(u16),
+    /// C12: like `Wait`, but the helper thread is held between wait_task_result's first look
+    /// at the results and its registration as a waiter (hook point
+    /// `wait_task_result:before_register`) until the next stop begins or the history ends,
+    /// so the task may finish inside that window
+    WaitLate(u16),
     /// C12: stop with a generous limit (C12 also judges what happens afterwards)
     Stop,
     /// C12: stop with a limit of that many ms (may be shorter than the remaining work)
@@ -78,6 +83,7 @@ pub fn strategy(lifecycle: bool) -> impl Strategy<Value = Case> {
             2 => (0u8..10).prop_map(Op::Sleep),
             2 => any::<u16>().prop_map(Op::Cancel),
             2 => any::<u16>().prop_map(Op::Wait),
+            1 => any::<u16>().prop_map(Op::WaitLate),
             1 => Just(Op::Stop),
             1 => (0u8..12).prop_map(Op::StopShort),
         ]
@@ -133,11 +139,27 @@ static SERIAL: AtomicU32 = AtomicU32::new(0);
 /// set in the per-case child process: print `start k` / `done k` around every driver step
 static TRACE_OPS: AtomicBool = AtomicBool::new(false);
 
+/// task ids whose waiter is to be held at `wait_task_result:before_register`
+static GATED: std::sync::Mutex<Vec<u64>> = std::sync::Mutex::new(Vec::new());
+static GATE_OPEN: AtomicBool = AtomicBool::new(false);
+static GATE_HELD: AtomicU32 = AtomicU32::new(0);
+
+fn gate_handler(name: &'static str, a: u64, _b: u64) {
+    if name != "wait_task_result:before_register" || !GATED.lock().unwrap().contains(&a) {
+        return;
+    }
+    GATE_HELD.fetch_add(1, Ordering::SeqCst);
+    let t = Instant::now();
+    while !GATE_OPEN.load(Ordering::SeqCst) && t.elapsed() < Duration::from_secs(10) {
+        std::thread::sleep(Duration::from_micros(200));
+    }
+}
+
 static HANGS_SEEN: AtomicU32 = AtomicU32::new(0);
 static MAX_WALL_MS: std::sync::atomic::AtomicU64 = std::sync::atomic::AtomicU64::new(0);
 
 /// every class label an outcome can carry (the child reports them by name)
-const CLASSES: [&str; 5] = ["cancel-while-suspended", "worker-died-by-panic", "max-size-reached", "submit-after-stop", "waiter-spans-stop"];
+const CLASSES: [&str; 6] = ["cancel-while-suspended", "worker-died-by-panic", "max-size-reached", "submit-after-stop", "waiter-spans-stop", "waiter-held-before-registering"];
 
 pub fn exec(c: &Case, lifecycle: bool) -> Outcome {
     let serial = SERIAL.fetch_add(1, Ordering::SeqCst);
@@ -165,6 +187,10 @@ pub fn exec(c: &Case, lifecycle: bool) -> Outcome {
     }
     let mut tasks: Vec<T> = vec![];
     let mut o = Outcome::pass();
+    GATED.lock().unwrap().clear();
+    GATE_OPEN.store(false, Ordering::SeqCst);
+    GATE_HELD.store(0, Ordering::SeqCst);
+    open_coroutine_core::verif::set_handler(Some(gate_handler));
     let mut states = vec![pool.state()];
     let mut stop_started = false;
     let mut stop_ok_at: Option<Instant> = None;
@@ -276,13 +302,16 @@ pub fn exec(c: &Case, lifecycle: bool) -> Outcome {
                 CoroutinePool::try_cancel_task(tasks[i].id);
                 tasks[i].cancelled = true;
             }
-            Op::Wait(ix) => {
+            Op::Wait(ix) | Op::WaitLate(ix) => {
                 if tasks.is_empty() || waiters.len() >= 3 {
                     continue;
                 }
                 let i = pick(ix, tasks.len());
                 if waiters.iter().any(|w| w.0 == i) {
                     continue;
+                }
+                if matches!(*op, Op::WaitLate(_)) && !GATE_OPEN.load(Ordering::SeqCst) {
+                    GATED.lock().unwrap().push(tasks[i].id);
                 }
                 let p = SendPool(std::ptr::from_ref(&*pool));
                 let id = tasks[i].id;
@@ -304,6 +333,7 @@ pub fn exec(c: &Case, lifecycle: bool) -> Outcome {
                 if !waiters.is_empty() {
                     waiter_spans_stop += 1;
                 }
+                GATE_OPEN.store(true, Ordering::SeqCst); // held waiters go on and register now
                 std::thread::sleep(Duration::from_millis(2)); // let helper threads register
                 let t = Instant::now();
                 let r = pool.stop(limit);
@@ -372,6 +402,8 @@ pub fn exec(c: &Case, lifecycle: bool) -> Outcome {
             let missing: Vec<usize> = tasks.iter().enumerate().filter(|(_, t)| !(t.cancelled || t.done.load(Ordering::SeqCst))).map(|x| x.0).collect();
             o.set_fail("C11/tasks-never-finished", format!("tasks {missing:?} neither finished nor were cancelled although the pool kept being scheduled"));
         } else {
+            GATE_OPEN.store(true, Ordering::SeqCst);
+            std::thread::sleep(Duration::from_millis(2));
             let t = Instant::now();
             let r = pool.stop(Duration::from_secs(2));
             let el = t.elapsed();
@@ -394,6 +426,8 @@ pub fn exec(c: &Case, lifecycle: bool) -> Outcome {
             }
         }
     }
+    GATE_OPEN.store(true, Ordering::SeqCst);
+    let late_waiter_held = GATE_HELD.load(Ordering::SeqCst) >= 1;
     // waiters must be settled shortly after stop returned
     for (i, h, _) in waiters {
         let t0 = Instant::now();
@@ -444,6 +478,7 @@ pub fn exec(c: &Case, lifecycle: bool) -> Outcome {
         .class_if(max_reached, "max-size-reached")
         .class_if(submit_after_stop >= 1, "submit-after-stop")
         .class_if(waiter_spans_stop >= 1, "waiter-spans-stop")
+        .class_if(late_waiter_held, "waiter-held-before-registering")
 }
 
 /// child side (`C11child` / `C12child`): one history in a fresh process, verdict on stdout
